@@ -60,6 +60,8 @@ pub struct DagOpts {
 const NAME_POOL: &[&str] = &[
     "All", "Phenotypic abnormality", "Mode of inheritance", "a", "b: c", "Ünïcode", "x y", "日本", "Q", "long name with spaces",
     "ABC1", "GENE", "Marfan", "Syndrome: type 1", "é",
+    // words that mean something elsewhere in the file formats
+    "NOT", "obsolete finding", "true", "HP:0000118", "OMIM:1", "1", "-", "Term", "is_a: x",
 ];
 
 pub fn gen_name(rng: &mut Rng) -> String {
@@ -249,9 +251,10 @@ pub fn facts_to_prog(rng: &mut Rng, f: &Facts, po: &ProgOpts, case: &mut Case) {
     for _ in 0..nfail {
         let some = f.terms[rng.below(f.terms.len() as u64) as usize].0;
         let a = absent(rng);
-        let call = match rng.below(3) {
+        let call = match rng.below(4) {
             0 => format!("parent {} {}", a, some),
             1 => format!("parent {} {}", some, a),
+            2 => format!("parent {} {}", a, a), // an absent term as its own parent
             _ => format!("parent {} {}", a, absent(rng)),
         };
         calls.push(call);
@@ -274,6 +277,12 @@ pub fn facts_to_prog(rng: &mut Rng, f: &Facts, po: &ProgOpts, case: &mut Case) {
         for (r, nm) in &f.recs[k] {
             if !linked.contains(r) || rng.chance(1, 4) {
                 calls.push(format!("addrec {} {} {}", KINDS[k], r, name(nm)));
+            }
+            if rng.chance(1, 8) {
+                // a second add (same name, so the fact set stays functional): the record that is
+                // there stays as it is, wherever the call lands among the annotate calls
+                calls.push(format!("addrec {} {} {}", KINDS[k], r, name(nm)));
+                case.stat("dup_addrec", 1);
             }
         }
         for (r, t) in &f.links[k] {
@@ -340,7 +349,12 @@ pub fn gen_flags(rng: &mut Rng, f: &mut Facts) -> Flags {
         f.terms.push((id, if nm.len() > 240 { nm } else { format!("obsolete {nm}") }));
         let repl = match rng.below(5) {
             0 => None,
-            1 => Some(rng.range(1, 9_999_999) as u32), // may not resolve
+            1 => Some(if rng.chance(1, 3) {
+                // outside the term-id range (always dangling)
+                *rng.pick(&[10_000_000u32, 10_000_001, 16_777_216, 1 << 31, u32::MAX - 1, u32::MAX])
+            } else {
+                rng.range(1, 9_999_999) as u32 // may not resolve
+            }),
             _ => Some(*rng.pick(&ids)),
         };
         flags.push((id, true, repl));
@@ -421,6 +435,38 @@ pub fn gen_deep_chain(rng: &mut Rng, n: usize) -> Facts {
                 f.links[k].push((r, *rng.pick(&ids)));
             }
         }
+    }
+    f.version = (2024, 1, 1);
+    f
+}
+
+/// A fan: HP:1 <- HP:118 <- `p` terms, and two terms below ALL of those `p` (resp. all but one);
+/// one record per kind annotated to every one of the `p` terms. `p` around the byte borders
+/// 255 / 256 / 257 / 513 (parent, child and term counts of the binary records, list capacities).
+pub fn gen_fan(rng: &mut Rng, p: usize) -> Facts {
+    let ids = gen_ids(rng, p + 2, &[1, 118]);
+    let mut f = Facts::default();
+    f.terms.push((1, "All".to_string()));
+    f.terms.push((118, "Phenotypic abnormality".to_string()));
+    f.edges.push((1, 118));
+    for id in &ids {
+        f.terms.push((*id, gen_name(rng)));
+    }
+    let (mids, low) = ids.split_at(p);
+    for m in mids {
+        f.edges.push((118, *m));
+        f.edges.push((*m, low[0]));
+    }
+    for m in &mids[1..] {
+        f.edges.push((*m, low[1]));
+    }
+    for k in 0..3 {
+        f.recs[k].push((7, gen_name(rng)));
+        for m in mids {
+            f.links[k].push((7, *m));
+        }
+        f.recs[k].push((8, gen_name(rng)));
+        f.links[k].push((8, low[1]));
     }
     f.version = (2024, 1, 1);
     f
